@@ -246,6 +246,9 @@ def trims(run, m, F, E, L):
                     st.ev('member', inst, args[0], args[1], args[2], True)
                     s2.ev('member', inst, args[0], args[1], args[2], False)
                     return [(st, I.fresh_ptr(st, 'hit')), (s2, NULL)]
+                if d.startswith('ST::string::string()') and len(st.frames) == 1:
+                    st.ev('res-empty', inst)
+                    return [(st, None)]
                 return None
             I = Interp(m, F, E, SliceHooks(m, stop))
             st = State()
@@ -327,6 +330,16 @@ def trims(run, m, F, E, L):
                                         problems.append('substr() is handed start+count = %r beyond size; witness %s' % (tot, own.fmt_env(env)))
                                     else:
                                         und.append('count handed to substr not decided to stay inside the string')
+                if o.kind == 'ret' and [e for e in s2.events if e[0] == 'res-empty'] and not [e for e in s2.events if e[0] == 'substr-call']:
+                    # the empty string is returned without slicing: on a path on which no unit was found in the set, nothing may be
+                    # trimmed, so the string itself must be empty
+                    if not [e for e in s2.events if e[0] == 'member' and e[5] is True] and s2.is_eq0(s) is not True:
+                        env = s2.find_model([s], lambda v: v[0] > 0)
+                        if env is not None:
+                            problems.append('returns the empty string although no unit of the string was found in the set on this path and the string '
+                                            'is not empty (a unit that stops the walk - e.g. an embedded NUL - is not a unit to trim); witness %s' % own.fmt_env(env))
+                        else:
+                            und.append('returns the empty string without slicing; whether the string is empty on this path is not decided')
                 if o.kind == 'abort':
                     problems.append('aborts')
                 disc = 'this=%s / %s #%d' % (cls, o.kind, n)
